@@ -324,3 +324,82 @@ def ws_closing(cause: int, p: int, flavour: int, j: int) -> bool:
     if not why and conn.sched.errors:
         why = "exception escaped a task: %r" % (conn.sched.errors[0],)
     return done(why == "", cause=WS_CAUSES[cause], p=p, flavour=flavour, j=j, why=why)
+
+
+# ------------------------------------------------------------------ the peer goes away abortively while the application waits (real workers)
+
+LOSS = ["connection reset", "read_timeout expires", "client EOF"]
+
+
+@harness(
+    "C03",
+    dom={"flavour": (0, 1), "proto": (0, 2), "loss": (0, 2)},
+    split={"flavour": "each", "proto": "each"},
+    witnesses=[{"flavour": 0, "proto": 0, "loss": 0}, {"flavour": 1, "proto": 0, "loss": 0}, {"flavour": 1, "proto": 2, "loss": 1}],
+    budget=120,
+    per_path=240,
+    bounds="each worker's real TCPServer with an application parked in receive() (HTTP/1.1 long poll, HTTP/2 stream, accepted WebSocket) when the client is lost by {reset, read_timeout=1 expiring, EOF}: exactly one final disconnect message, one access record, handler finished",
+    encodes=["hypercorn/asyncio/tcp_server.py::TCPServer._read_data", "hypercorn/trio/tcp_server.py::TCPServer._read_data", "hypercorn/protocol/h11.py::H11Protocol.handle", "hypercorn/protocol/h2.py::H2Protocol.handle",
+             "hypercorn/protocol/http_stream.py::HTTPStream.handle", "hypercorn/protocol/ws_stream.py::WSStream.handle"],
+    stubs=["tier C runtimes (virtual asyncio loop / trio MockClock)"],
+)
+def real_worker_peer_loss(flavour: int, proto: int, loss: int) -> bool:
+    """
+    pre: DOM(real_worker_peer_loss, flavour=flavour, proto=proto, loss=loss)
+    post: _
+    """
+    from vf.session import run_session
+    from vf.stubs.clients import H2Client
+
+    enter()
+    flavour = "asyncio" if conc(flavour, 0, 1) == 0 else "trio"
+    proto = conc(proto, 0, 2)
+    loss = conc(loss, 0, 2)
+    seen = []
+
+    def factory(env):
+        async def app(scope, receive, send, sync_spawn=None, call_soon=None):
+            if scope["type"] == "websocket":
+                seen.append((await receive())["type"])
+                await send({"type": "websocket.accept"})
+            while True:
+                m = await receive()
+                seen.append(m["type"])
+                if m["type"].endswith("disconnect"):
+                    break
+            try:
+                await send({"type": "websocket.send", "text": "late"} if scope["type"] == "websocket" else {"type": "http.response.start", "status": 200, "headers": []})
+            except Exception as e:  # noqa: BLE001
+                seen.append("send raised %r" % (e,))
+
+        return app
+
+    if proto == 0:
+        data, alpn = h1_request("POST", b"/poll", [HOSTH, (b"Content-Length", b"10")]) + b"abc", None
+    elif proto == 1:
+        c = H2Client()
+        c.request(1, b"POST", b"/poll", end_stream=False)
+        data, alpn = c.take(), "h2"
+    else:
+        data, alpn = ws_h1_handshake(), None
+    cfg = make_config(keep_alive_timeout=30, read_timeout=1) if loss == 1 else make_config(keep_alive_timeout=30)
+    acts = [("feed", data), ("sleep", 0.5)]
+    if loss == 0:
+        acts.append(("reset",))
+    elif loss == 2:
+        acts.append(("eof",))
+    acts.append(("sleep", 3.0))
+    obs = run_session(flavour, factory, cfg, acts, alpn=alpn)
+    discs = [m for m in seen if m.endswith("disconnect")]
+    why = ""
+    if obs["handler_error"] is not None:
+        why = "connection handler raised %r" % (obs["handler_error"],)
+    elif len(discs) != 1:
+        why = f"{len(discs)} disconnect messages after '{LOSS[loss]}': {seen!r}"
+    elif [m for m in seen if m.startswith("send raised")]:
+        why = f"a send after the disconnect raised: {seen!r}"
+    elif cfg._log.count("access") != 1:
+        why = f"{cfg._log.count('access')} access records for one request"
+    elif not obs["handler_done"]:
+        why = "the connection handler is still running 3 s after the client was lost"
+    return done(why == "", flavour=flavour, protocol=["HTTP/1.1", "HTTP/2", "WebSocket"][proto], loss=LOSS[loss], why=why)
